@@ -366,3 +366,52 @@ def unreadable_signature(model, payload):
         shutil.rmtree(d, ignore_errors=True)
     return {"reproduced": False, "detail": "classes derived from dict / ValueError: empty argument context, evaluation equals plain execution"}
 
+
+def binding_signatures_end_to_end(model, payload):
+    """The signature under which dds.keep(path, f, ...) stores a call is injective on the bindings of f -- also when several
+    parameters are bound to the same value: def f(a, b, c=0, d=0) over all bindings with values in {0, 1, 2} for (a, b, c) and
+    {0, 2} for d (54 bindings, 1431 pairs), each kept directly with run-time values and as literals in the source of an
+    evaluated function (a subset of 12)."""
+    import importlib
+    import itertools
+    import os
+    import shutil
+    import sys
+    import tempfile
+    import dds
+    import dds._api as api
+
+    d = tempfile.mkdtemp(prefix="dds_h_args_e2e_")
+    sys.path.insert(0, d)
+    try:
+        bindings = [(a, b, c, dd) for a, b, c in itertools.product((0, 1, 2), repeat=3) for dd in (0, 2)]
+        lit = [b_ for b_ in bindings if b_[0] == 1 and b_[3] == 2] + [(1, 2, 1, 0), (1, 2, 2, 0), (2, 2, 2, 0)]
+        src = ["import dds", "", "def f(a, b, c=0, d=0):", "    return [a, b, c, d]", ""]
+        for i, b_ in enumerate(lit):
+            src += ["def site_%d():" % i, "    return dds.keep('/e2e/lit_%d', f, %d, %d, c=%d, d=%d)" % ((i,) + b_), ""]
+        open(os.path.join(d, "e2e_mod.py"), "w").write("\n".join(src))
+        m = importlib.import_module("e2e_mod")
+        dds.accept_module(m)
+        dds.set_store("memory")
+        sigs = {}
+        for b_ in bindings:
+            p = "/e2e/rt_%d_%d_%d_%d" % b_
+            v = dds.keep(p, m.f, b_[0], b_[1], c=b_[2], d=b_[3])
+            if v != list(b_):
+                return {"reproduced": True, "detail": "dds.keep(%r, f, %d, %d, c=%d, d=%d) returned %r (a result stored for another binding)" % ((p,) + b_ + (v,)), "inputs": {"binding": list(b_)}}
+            sigs[("run-time", b_)] = api._store().fetch_paths([p])[p]
+        for i, b_ in enumerate(lit):
+            v = dds.eval(getattr(m, "site_%d" % i))
+            if v != list(b_):
+                return {"reproduced": True, "detail": "the literal call dds.keep('/e2e/lit_%d', f, %d, %d, c=%d, d=%d) returned %r (a result stored for another binding)" % ((i,) + b_ + (v,)), "inputs": {"binding": list(b_)}}
+            sigs[("literal", b_)] = api._store().fetch_paths(["/e2e/lit_%d" % i])["/e2e/lit_%d" % i]
+        for (k1, s1), (k2, s2) in itertools.combinations(sorted(sigs.items()), 2):
+            if (k1[1] == k2[1]) != (s1 == s2):
+                return {"reproduced": True, "detail": "def f(a, b, c=0, d=0): the %s call f%r and the %s call f%r get %s signatures" % (k1[0], k1[1], k2[0], k2[1], "the same" if s1 == s2 else "different"), "inputs": {"first": list(k1[1]), "second": list(k2[1])}}
+        return {"reproduced": False, "detail": "%d calls: one signature per binding, the stored value is that of the binding" % len(sigs)}
+    finally:
+        dds.set_store("memory")
+        sys.path.remove(d)
+        sys.modules.pop("e2e_mod", None)
+        shutil.rmtree(d, ignore_errors=True)
+
